@@ -914,6 +914,14 @@ def r9_return_types_are_inferred_in_the_function_s_own_scope(ctx):
             if f2 is not None and f2.locals and f2.locals[0]["ty"] == "bool" and any("Block" in l["ty"] for l in f2.locals[1:f2.argc + 1]):
                 preds.append(c)
     nulls = [st for g in fam for b in sorted(g.live) for st in g.blocks[b]["s"] if st["rv"]["k"] == "agg" and str(st["rv"].get("adt", "")).endswith("ValueType") and st["rv"].get("variant") == "Null"]
+    # (c) the inferred type is the common type of *all* returns, else dynamic
+    fam_calls = [(g, c) for g in fam for c in g.calls()]
+    alls = [c for g, c in fam_calls if (c.callee or "").split("::")[-1] == "all"]
+    weaker = [c for g, c in fam_calls if (c.callee or "").split("::")[-1] in ("any", "contains", "find", "position")]
+    if alls and not weaker:
+        ctx.ok("return-type|all-agree", inf.where(alls[0].block), "a concrete type only when all return types agree")
+    else:
+        ctx.bad("return-type|not-all-agree|%s" % (weaker[0].callee.split("::")[-1] if weaker else "none"), inf.where((weaker or alls or [None])[0].block if (weaker or alls) else None), "the inferred return type is the first return's type as soon as %s return agrees with it, not when all do: a function that returns a number on one path and a string on another is typed by its first `return`, and uses that are right for the other type are rejected (`describe(5).len()`)" % ("some" if weaker else "no test says every"))
     if preds and len(nulls) >= 1:
         ctx.ok("return-type|implicit-null", inf.where(preds[0].block), "%s decides whether the body can fall off its end; Null joins the inferred type when it can" % preds[0].callee.split("::")[-1])
     else:
